@@ -134,6 +134,42 @@ Proof.
   intros [H|H]; [|auto]. apply mem_insert_in in H. tauto.
 Qed.
 
+(** The content part of a write needs only [content_ok] and recency of the
+    new record among the earlier writes of its key. *)
+Lemma put_content_ok_gen s ws r :
+  content_ok s ws -> (forall y, In y ws -> r_key y = r_key r -> geq r y) ->
+  content_ok (put s r) (ws ++ [r]).
+Proof.
+  intros [Hc1 Hc2] Hrecent. split.
+  - intros x Hx. apply in_or_app. apply put_recs in Hx as [->|Hx]; [right; now left | left; auto].
+  - intros w Hw. apply in_app_or in Hw as [Hw|[<-|[]]].
+    + destruct (Hc2 w Hw) as (x & Hx & Ek & Ev & Hg).
+      rewrite tiers_of_put. rewrite tiers_of_eq in Hx. rewrite all_recs_cons_eq, concat_single in Hx.
+      apply in_app_or in Hx as [Hx|Hx].
+      * destruct (rcmp r x) eqn:E.
+        -- apply rcmp_eq in E as [Ek' Ev']. exists r. split.
+           ++ rewrite all_recs_cons_eq, concat_single. apply in_or_app. left. apply mem_insert_has.
+           ++ split; [congruence|]. split; [congruence|]. apply Hrecent; [exact Hw | congruence].
+        -- exists x. split; [|auto]. rewrite all_recs_cons_eq, concat_single. apply in_or_app. left.
+           apply mem_insert_keeps; [exact Hx | congruence].
+        -- exists x. split; [|auto]. rewrite all_recs_cons_eq, concat_single. apply in_or_app. left.
+           apply mem_insert_keeps; [exact Hx | congruence].
+      * exists x. split; [|auto]. rewrite all_recs_cons_eq. apply in_or_app. now right.
+    + exists r. split; [|split; [reflexivity | split; [reflexivity | apply geq_refl]]].
+      rewrite tiers_of_put, all_recs_cons_eq, concat_single. apply in_or_app. left. apply mem_insert_has.
+Qed.
+
+Lemma seq_functional_snoc ws r :
+  seq_functional ws -> (forall y, In y ws -> r_seq y < r_seq r) -> seq_functional (ws ++ [r]).
+Proof.
+  intros Hf Hfresh x y Hx Hy E.
+  apply in_app_or in Hx as [Hx|[<-|[]]]; apply in_app_or in Hy as [Hy|[<-|[]]].
+  - now apply Hf.
+  - specialize (Hfresh x Hx). lia.
+  - specialize (Hfresh y Hy). lia.
+  - reflexivity.
+Qed.
+
 Section Put.
   Variables (s : state) (ws : list rec) (r : rec).
   Hypothesis HJ : J s ws.
@@ -161,35 +197,10 @@ Section Put.
   Qed.
 
   Lemma put_content_ok : content_ok (put s r) (ws ++ [r]).
-  Proof.
-    destruct HJ as [_ _ [Hc1 Hc2] _ _ _]. split.
-    - intros x Hx. apply in_or_app. apply put_recs in Hx as [->|Hx]; [right; now left | left; auto].
-    - intros w Hw. apply in_app_or in Hw as [Hw|[<-|[]]].
-      + destruct (Hc2 w Hw) as (x & Hx & Ek & Ev & Hg).
-        rewrite tiers_of_put. rewrite tiers_of_eq in Hx. rewrite all_recs_cons_eq, concat_single in Hx.
-        apply in_app_or in Hx as [Hx|Hx].
-        * destruct (rcmp r x) eqn:E.
-          -- apply rcmp_eq in E as [Ek' Ev']. exists r. split.
-             ++ rewrite all_recs_cons_eq, concat_single. apply in_or_app. left. apply mem_insert_has.
-             ++ split; [congruence|]. split; [congruence|]. apply Hrecent; [exact Hw | congruence].
-          -- exists x. split; [|auto]. rewrite all_recs_cons_eq, concat_single. apply in_or_app. left.
-             apply mem_insert_keeps; [exact Hx | congruence].
-          -- exists x. split; [|auto]. rewrite all_recs_cons_eq, concat_single. apply in_or_app. left.
-             apply mem_insert_keeps; [exact Hx | congruence].
-        * exists x. split; [|auto]. rewrite all_recs_cons_eq. apply in_or_app. now right.
-      + exists r. split; [|split; [reflexivity | split; [reflexivity | apply geq_refl]]].
-        rewrite tiers_of_put, all_recs_cons_eq, concat_single. apply in_or_app. left. apply mem_insert_has.
-  Qed.
+  Proof. apply put_content_ok_gen; [exact (j_content _ _ HJ) | exact Hrecent]. Qed.
 
   Lemma put_seq_functional : seq_functional (ws ++ [r]).
-  Proof.
-    destruct HJ as [_ _ _ Hf _ _]. intros x y Hx Hy E.
-    apply in_app_or in Hx as [Hx|[<-|[]]]; apply in_app_or in Hy as [Hy|[<-|[]]].
-    - now apply Hf.
-    - specialize (Hfresh x Hx). lia.
-    - specialize (Hfresh y Hy). lia.
-    - reflexivity.
-  Qed.
+  Proof. apply seq_functional_snoc; [exact (j_seq _ _ HJ) | exact Hfresh]. Qed.
 
   Theorem put_J : J (put s r) (ws ++ [r]).
   Proof.
@@ -451,6 +462,44 @@ Theorem reopen_run_same_reads m ops :
 Proof.
   intros Hk Hm. eapply reopen_same_reads. apply (run_J ops (init m) [] (J_init m) Hk Hm).
 Qed.
+
+(** The plain API: every write carries the same positive (sentinel) version
+    and acknowledgement indices increase — such histories are admissible. *)
+Fixpoint plain_from (c n : N) (ops : list op) : bool :=
+  match ops with
+  | [] => true
+  | OPut r :: ops' => (r_ver r =? c) && (n <? r_seq r) && plain_from c (r_seq r) ops'
+  | _ :: ops' => plain_from c n ops'
+  end.
+Definition plain_api (c : N) (ops : list op) : bool := (0 <? c) && plain_from c 0 ops.
+
+Lemma plain_from_monotone c ops : 0 < c -> forall n ws,
+  (forall y, In y ws -> r_ver y = c /\ r_seq y <= n) ->
+  plain_from c n ops = true -> puts_monotone_from ws ops = true.
+Proof.
+  intro Hc. induction ops as [|o ops IH]; intros n ws Hws Hp; [reflexivity|].
+  destruct o as [r| | | |]; cbn [plain_from puts_monotone_from] in *; try (now apply (IH n)).
+  apply andb_true_iff in Hp as [Hp Hp3]. apply andb_true_iff in Hp as [Hp1 Hp2].
+  apply N.eqb_eq in Hp1. apply N.ltb_lt in Hp2. apply andb_true_iff. split.
+  - unfold put_okb. apply andb_true_iff. split; [apply N.ltb_lt; lia|].
+    apply forallb_forall. intros y Hy. destruct (Hws y Hy) as [Hv Hs].
+    apply andb_true_iff. split; [apply N.ltb_lt; lia|]. apply orb_true_iff. right.
+    apply geqb_spec. right. split; [congruence | lia].
+  - apply (IH (r_seq r)); [|exact Hp3]. intros y Hy. apply in_app_or in Hy as [Hy|[<-|[]]].
+    + destruct (Hws y Hy). split; [assumption | lia].
+    + split; [exact Hp1 | lia].
+Qed.
+
+Theorem lww_plain_api m c ops :
+  forallb mlfr_op ops = true -> plain_api c ops = true ->
+  forall k v, get (run (init m) ops) k v = latest_at (writes ops) k v.
+Proof.
+  intros Hk Hp. apply andb_true_iff in Hp as [Hc Hp]. apply N.ltb_lt in Hc.
+  apply lww_reopen; [exact Hk|]. apply (plain_from_monotone c ops Hc 0 []); [intros y [] | exact Hp].
+Qed.
+
+Example plain_api_l0_tie : forallb mlfr_op l0_tie = true /\ plain_api mx l0_tie = true.
+Proof. vm_compute. split; reflexivity. Qed.
 
 (** The hypotheses are satisfiable: plain-API overwrites (sentinel version,
     increasing acknowledgement index) and versioned writes with per-key
